@@ -204,6 +204,8 @@ def rule_rowrank(ctx):
 
 
 def run(ctx):
+    from ..rules import round5 as _R5e
+    _R5e.rule_label_selects_matches(ctx)
     rule_F5c(ctx)
     rule_names(ctx)
     rule_tempo_methods(ctx)
